@@ -1001,15 +1001,15 @@ func (w *wk) runLevels() {
 		{"L1d graphs: 1 node", func() { w.graphLevel(1) }},
 		{"L2a calls: 1 argument (full pool)", func() { w.callLevel(1) }},
 		{"L2b texts: length 2 (full alphabet incl. all reserved words) x 64 option vectors", func() { w.textLevel(2, true, allOpts()) }},
-		{"L2c nesting family: depths 10,100", func() { w.nestLevel(4, 100) }},
+		{"L2c nesting family: depths 10..100 (decades and both sides of powers of two)", func() { w.nestLevel(4, 100) }},
 		{"L2d graphs: 2 nodes", func() { w.graphLevel(2) }},
 		{"L3a calls: 2 arguments (full pool squared)", func() { w.callLevel(2) }},
 		{"L3b calls: keyword lists", func() { w.kwLevel() }},
 		{"L3c texts: length 3 x options {none, all}", func() { w.textLevel(3, false, []int{0, 63}) }},
-		{"L3d nesting family: depth 1000", func() { w.nestLevel(101, 1000) }},
+		{"L3d nesting family: depths 101..1000 (decades and both sides of powers of two)", func() { w.nestLevel(101, 1000) }},
 		{"L4a calls: 3 arguments (sub-pool cubed)", func() { w.callLevel(3) }},
 		{"L4b graphs: 3 nodes", func() { w.graphLevel(3) }},
-		{"L4c nesting family: depth 10000 and the largest fitting 64 KiB; runtime recursion", func() { w.nestLevel(1001, 1<<30) }},
+		{"L4c nesting family: depths above 1000 (decades, both sides of powers of two, the largest fitting 64 KiB); runtime recursion", func() { w.nestLevel(1001, 1<<30) }},
 		{"L4d texts: length 3 x the remaining 62 option vectors", func() { w.textLevel(3, false, midOpts()) }},
 	}
 	if thorough {
